@@ -7,6 +7,55 @@ from ..cfg import guarded_by
 from .. import q
 
 
+def interactive_rule(ctx, rule_id, reference=None):
+    p, cg = ctx.p, ctx.cg
+    qcls = ctx.cls("clikit.ui.components.question.Question")
+    ask = qcls.methods.get("ask")
+    # ---------------------------------------------------------------- R3
+    r = ctx.rule(rule_id, "ORDER", "a question on a non-interactive input returns its default before anything is "
+                 "read or written", reference=reference)
+    cfg = ctx.cfg(ask)
+    io_cls = ctx.cls("clikit.api.io.io.IO")
+    io_names = {"read", "read_line", "write", "write_line", "write_raw", "write_line_raw", "error", "error_line", "error_raw", "error_line_raw"}
+    io_fns = set(m.qualname for c in p.subclasses(io_cls) for n, m in c.methods.items() if n in io_names)
+
+    def reaches_io(f):
+        return any(g.qualname in io_fns for g in cg.reachable([f]).values())
+    inter_names = {t.id for n in walk_no_nested(ask.node) if isinstance(n, ast.Assign) and isinstance(n.value, ast.Call) and isinstance(n.value.func, ast.Attribute)
+                   and n.value.func.attr == "is_interactive" for t in n.targets if isinstance(t, ast.Name)}
+
+    def is_inter(e):
+        return (isinstance(e, ast.Call) and isinstance(e.func, ast.Attribute) and e.func.attr == "is_interactive") or (isinstance(e, ast.Name) and e.id in inter_names)
+    inter_t = [e for e in cfg.nodes if e.kind == "T" and is_inter(e.ast)]
+    inter_f = [e for e in cfg.nodes if e.kind == "F" and is_inter(e.ast)]
+    if not inter_t:
+        r.fail(ask, ask.node, "no interactive test", "Question.ask never tests io.is_interactive()")
+    n_calls = 0
+    for cs in cg.sites_in(ask):
+        targets = list(cs.targets)
+        if not any(reaches_io(t) for t in targets):
+            continue
+        n_calls += 1
+        nodes = cfg.nodes_of(cs.node)
+        if inter_t and all(any(cfg.dominates(e.id, n.id) for e in inter_t) for n in nodes):
+            r.ok("%s: %s only when interactive" % (ask.short, norm(cs.node)[:50]))
+        else:
+            r.fail(ask, cs.node, norm(cs.node), "%s can read or write before (or without) the interactive test" % norm(cs.node.func))
+    # nested closures defined in ask are only *called* through guarded calls; the non-interactive arm returns the default
+    for e in inter_f:
+        rets = [n for n in cfg.nodes if n.kind == "return" and n.id in cfg.reach([e.id])]
+        if rets and all(n.ast.value is not None and ("default" in norm(n.ast.value)) for n in rets) and cfg.exit.id in cfg.reach([e.id]):
+            direct = [n for n in cfg.nodes if n.kind == "return" and cfg.dominates(e.id, n.id)]
+            if direct:
+                r.ok("%s: non-interactive arm returns %s" % (ask.short, norm(direct[0].ast.value)))
+            else:
+                r.fail(ask, ask.node, "non-interactive arm", "the non-interactive arm does not return immediately")
+        else:
+            r.fail(ask, ask.node, "non-interactive return", "a non-interactive question does not return its default")
+
+    return r
+
+
 def run(ctx):
     p, cg = ctx.p, ctx.cg
     qcls = ctx.cls("clikit.ui.components.question.Question")
@@ -82,7 +131,7 @@ def run(ctx):
         r.note("no retry loop with a swallowing handler")
 
     # ---------------------------------------------------------------- R2
-    r = ctx.rule("C18-R2", "KEY", "what a choice question returns was taken out of the choices list", reference=6)
+    r = ctx.rule("C18-R2", "KEY", "what a choice question returns was taken out of the choices list", reference=7)
     val = ctx.func("SelectChoiceValidator.validate")
     cfg = ctx.cfg(val)
     init = ctx.func("SelectChoiceValidator.__init__")
@@ -121,53 +170,43 @@ def run(ctx):
                     r.fail(val, c, norm(c) + " <- False", "the 'not found' sentinel can reach the returned answer")
             else:
                 r.fail(val, d.ast, norm(d.ast), "the answer can be %s, which is not an element of the choices (e.g. the text or index typed)" % norm(v) if v is not None else "unknown")
+    # per-entry freshness: the value appended for an entry was defined while handling *that* entry
+    for c in appends:
+        var = c.args[0].id
+        an = cfg.node_of(c)
+        loops_ = cfg.enclosing_loops(c)
+        if not loops_:
+            continue
+        heads = [n for n in cfg.nodes if n.kind == "loop_body" and n.ast is loops_[0]]
+        defs_in = set(d.id for d in cfg.writes(lambda t: t == var) if any(a is loops_[0] for a in _anc(d.ast)))
+        def stale_path(h):
+            # can the append be reached from the start of the iteration without an assignment that *completed*?
+            # (an assignment node left through its exceptional edge did not assign)
+            seen, work = set(), [h]
+            while work:
+                x = work.pop()
+                if x in seen:
+                    continue
+                seen.add(x)
+                if x == an.id:
+                    return True
+                for y, kind in cfg.succ[x]:
+                    if x in defs_in and kind == "n":
+                        continue
+                    work.append(y)
+            return False
+        if heads and defs_in and not any(stale_path(h.id) for h in heads):
+            r.ok("%s: %s is (re)defined for every entry before it is appended" % (val.short, var))
+        else:
+            r.fail(val, c, norm(c) + " stale", "for some entries no value is assigned to %s before it is appended: the choice found for the previous entry is returned again "
+                   "(an invalid entry is silently accepted, no error, no attempt used)" % var)
     for ret in rets:
         if ret.value is not None and all(isinstance(x, (ast.Name, ast.Subscript, ast.Constant, ast.Load, ast.Index)) for x in walk_no_nested(ret.value)):
             r.ok("%s: returns %s" % (val.short, norm(ret.value)))
         elif ret.value is not None:
             r.fail(val, ret, norm(ret), "validate returns something other than the collected choices")
 
-    # ---------------------------------------------------------------- R3
-    r = ctx.rule("C18-R3", "ORDER", "a question on a non-interactive input returns its default before anything is "
-                 "read or written", reference=3)
-    cfg = ctx.cfg(ask)
-    io_cls = ctx.cls("clikit.api.io.io.IO")
-    io_names = {"read", "read_line", "write", "write_line", "write_raw", "write_line_raw", "error", "error_line", "error_raw", "error_line_raw"}
-    io_fns = set(m.qualname for c in p.subclasses(io_cls) for n, m in c.methods.items() if n in io_names)
-
-    def reaches_io(f):
-        return any(g.qualname in io_fns for g in cg.reachable([f]).values())
-    inter_names = {t.id for n in walk_no_nested(ask.node) if isinstance(n, ast.Assign) and isinstance(n.value, ast.Call) and isinstance(n.value.func, ast.Attribute)
-                   and n.value.func.attr == "is_interactive" for t in n.targets if isinstance(t, ast.Name)}
-
-    def is_inter(e):
-        return (isinstance(e, ast.Call) and isinstance(e.func, ast.Attribute) and e.func.attr == "is_interactive") or (isinstance(e, ast.Name) and e.id in inter_names)
-    inter_t = [e for e in cfg.nodes if e.kind == "T" and is_inter(e.ast)]
-    inter_f = [e for e in cfg.nodes if e.kind == "F" and is_inter(e.ast)]
-    if not inter_t:
-        r.fail(ask, ask.node, "no interactive test", "Question.ask never tests io.is_interactive()")
-    n_calls = 0
-    for cs in cg.sites_in(ask):
-        targets = list(cs.targets)
-        if not any(reaches_io(t) for t in targets):
-            continue
-        n_calls += 1
-        nodes = cfg.nodes_of(cs.node)
-        if inter_t and all(any(cfg.dominates(e.id, n.id) for e in inter_t) for n in nodes):
-            r.ok("%s: %s only when interactive" % (ask.short, norm(cs.node)[:50]))
-        else:
-            r.fail(ask, cs.node, norm(cs.node), "%s can read or write before (or without) the interactive test" % norm(cs.node.func))
-    # nested closures defined in ask are only *called* through guarded calls; the non-interactive arm returns the default
-    for e in inter_f:
-        rets = [n for n in cfg.nodes if n.kind == "return" and n.id in cfg.reach([e.id])]
-        if rets and all(n.ast.value is not None and ("default" in norm(n.ast.value)) for n in rets) and cfg.exit.id in cfg.reach([e.id]):
-            direct = [n for n in cfg.nodes if n.kind == "return" and cfg.dominates(e.id, n.id)]
-            if direct:
-                r.ok("%s: non-interactive arm returns %s" % (ask.short, norm(direct[0].ast.value)))
-            else:
-                r.fail(ask, ask.node, "non-interactive arm", "the non-interactive arm does not return immediately")
-        else:
-            r.fail(ask, ask.node, "non-interactive return", "a non-interactive question does not return its default")
+    interactive_rule(ctx, "C18-R3", reference=3)
 
     # ---------------------------------------------------------------- R4
     r = ctx.rule("C18-R4", "MULT", "a failed attempt costs exactly one attempt and prints one error", reference=4)
@@ -207,3 +246,10 @@ def run(ctx):
     else:
         r.fail(va, va.node, "no final raise", "an exhausted attempt budget does not raise")
     return ctx.results
+
+
+def _anc(n):
+    p = getattr(n, "_parent", None)
+    while p is not None:
+        yield p
+        p = getattr(p, "_parent", None)
